@@ -1,6 +1,6 @@
 (* C09 - prune never loses data still referenced by a remaining snapshot, at every crash point.
    Statements only. *)
-From Restic Require Import Base.Prelude Model.S_Prune Proofs.S_Prunep Model.C09m Proofs.C09p.
+From Restic Require Import Base.Prelude Model.S_Prune Proofs.S_Prunep Model.C09m Proofs.C09p Model.C10m Proofs.C09p_plan.
 Import SPrune C09m.
 Open Scope N_scope.
 
@@ -63,16 +63,49 @@ Proof. exact check_crash_sound. Qed.
 Theorem C09_consistentb_iff : forall R used, consistentb R used = true <-> Consistent R used.
 Proof. exact consistentb_iff. Qed.
 
-(* Finding F-C09-1 (refutation witness): PlanPrune's keepBlobs reduction does not skip ignorePacks; on a
-   consistent repository it can produce a plan that loses a needed blob; skipping them repairs it. *)
-Theorem C09_keep_reduction_refuted :
-  exists R0 used ents rmrep ignore ob,
-    Consistent R0 used /\
-    valid_planb R0 used (mkPl [] rmrep (rmrep ++ ignore) (keep_blobs used ents rmrep) ob) = false /\
-    valid_planb R0 used (mkPl [] rmrep (rmrep ++ ignore) (keep_blobs_fixed used ents rmrep ignore) ob) = true.
-Proof. exact keep_reduction_refuted. Qed.
+(* The keepBlobs reduction of PlanPrune (after the fix of F-C09-1), for every choice of the plan's pack
+   sets: if index entries outside the removed/repacked/ignored packs are truthful, the plan whose
+   keepBlobs come from the reduction is valid - a blob is never dropped from keepBlobs when its other
+   copies are only in removed, repacked or missing packs. *)
+Theorem C09_keep_reduction_valid : forall R0 used first rmv ex ob,
+  forallb (fun p => memN p ex) rmv = true ->
+  (forall p h, In (p, h) (ents_of R0) -> ~ In p ex -> pack_has R0 p h = true) ->
+  valid_planb R0 used (mkPl first rmv ex (keep_blobs used (ents_of R0) ex) ob) = true.
+Proof. exact keep_reduction_valid. Qed.
 
-Print Assumptions C09_keep_reduction_refuted.
+Theorem C09_keep_blobs_sound : forall used ents ex h,
+  In h used -> ~ In h (keep_blobs used ents ex) -> exists p, In (p, h) ents /\ ~ In p ex.
+Proof. exact keep_blobs_sound. Qed.
+
+(* Plan derived from the planner model (packInfoFromIndex + decidePackAction + keepBlobs reduction at
+   max-unused 0 / no repack limit, C10m.plan_prune): for every index listing, used set and pack listing,
+   if the abstract repository lists the same index entries and the index is truthful for the pack files
+   that exist, the model's plan is valid ... *)
+Theorem C09_model_plan_valid : forall o used es listing R0 f r p i k st ob,
+  (forall e, In e es -> In (e_pack e, e_h e) (ents_of R0)) ->
+  (forall e, In e es -> In (e_pack e) (map fst listing) -> pack_has R0 (e_pack e) (e_h e) = true) ->
+  C10m.plan_prune o used es listing = C10m.Plan f r p i k st ->
+  valid_planb R0 used (mkPl f (r ++ p) (r ++ p ++ i) k ob) = true.
+Proof. intros. eapply model_plan_valid; eassumption. Qed.
+
+(* ... hence executing the MODEL's plan along any trace with the structure of Execute never loses a used
+   blob at any crash prefix. *)
+Theorem C09_model_plan_prefix_safe : forall o used es listing R0 f r p i k st ob tr,
+  Consistent R0 used ->
+  (forall e, In e es -> In (e_pack e, e_h e) (ents_of R0)) ->
+  (forall e, In e es -> In (e_pack e) (map fst listing) -> pack_has R0 (e_pack e) (e_h e) = true) ->
+  C10m.plan_prune o used es listing = C10m.Plan f r p i k st ->
+  run_ok (mkPl f (r ++ p) (r ++ p ++ i) k ob) PhA R0 tr = true ->
+  forall n, Consistent (run R0 (firstn n tr)) used.
+Proof.
+  intros o used es listing R0 f r p i k st ob tr Hc H1 H2 Hp Hr n.
+  eapply prune_prefix_safe; [exact Hc | eapply model_plan_valid; eassumption | exact Hr].
+Qed.
+
+Print Assumptions C09_model_plan_valid.
+Print Assumptions C09_model_plan_prefix_safe.
+Print Assumptions C09_keep_reduction_valid.
+Print Assumptions C09_keep_blobs_sound.
 Print Assumptions C09_prune_prefix_safe.
 Print Assumptions C09_prune_prefix_no_new_dangling.
 Print Assumptions C09_selection_unique.
